@@ -1,5 +1,5 @@
 import vflib
-WRAPS = ("psGetEntropy", "gettimeofday", "time")
+WRAPS = ("psGetEntropy", "gettimeofday", "time", "clock_gettime")
 def run(ctx):
     st = [dict(variant="asan", name="c01", sources=["checks/c01_appdata.c", "harness/mx_wraps.c"], wraps=WRAPS, libs=["-lcrypto"],
                shards=vflib.NCPU, timeout=7200 if ctx.thorough else 1200)]
